@@ -344,7 +344,7 @@ func mentionsErrIsNil(e ast.Expr) bool {
 	found := false
 	ast.Inspect(e, func(n ast.Node) bool {
 		if be, ok := n.(*ast.BinaryExpr); ok && be.Op == token.EQL {
-			if id, ok := be.X.(*ast.Ident); ok && id.Name == "err" {
+			if id, ok := be.X.(*ast.Ident); ok && isErrName(id.Name) {
 				if y, ok := be.Y.(*ast.Ident); ok && y.Name == "nil" {
 					found = true
 				}
@@ -353,6 +353,13 @@ func mentionsErrIsNil(e ast.Expr) bool {
 		return true
 	})
 	return found
+}
+
+// isErrName: err, err2, ferr, cerr, closeErr, ... (the error of a second resolution is often not
+// called err: metadata_stream.go `if filters, ferr := c.Filters(...); ferr == nil {`)
+func isErrName(name string) bool {
+	name = strings.TrimRight(name, "0123456789")
+	return name == "err" || strings.HasSuffix(name, "err") || strings.HasSuffix(name, "Err")
 }
 
 func mentionsIdent(n ast.Node, name string) bool {
